@@ -124,6 +124,16 @@ class Obligation:
         self.inputs = {}
 
 
+def _flatten_and(g):
+    out = []
+    for c in g.children():
+        if z3.is_and(c):
+            out.extend(_flatten_and(c))
+        else:
+            out.append(c)
+    return out
+
+
 class Loop:
     def __init__(self, inv=(), variant=None, index=None, hints=(), modifies=None, label=None, cut=None):
         self.inv, self.variant, self.index, self.hints = list(inv), variant, index, list(hints)
@@ -214,6 +224,15 @@ class Run:
     def oblige(self, name, goal, kind="assert", note="", expect_sat=False):
         if isinstance(goal, bool):
             goal = z3.BoolVal(goal)
+        if not expect_sat and z3.is_and(goal) and goal.num_args() > 1:
+            # one query per conjunct (smaller queries, and a failure names the clause)
+            for k, cj in enumerate(_flatten_and(goal)):
+                self.oblige(f"{name}.{k}", cj, kind=kind, note=note)
+            return
+        if not expect_sat and z3.is_app(goal) and goal.decl().kind() == z3.Z3_OP_IMPLIES and z3.is_and(goal.arg(1)) and goal.arg(1).num_args() > 1:
+            for k, cj in enumerate(_flatten_and(goal.arg(1))):
+                self.oblige(f"{name}.{k}", z3.Implies(goal.arg(0), cj), kind=kind, note=note)
+            return
         g = z3.simplify(goal)
         if z3.is_true(g) and not expect_sat:
             self.x.trivial += 1
@@ -309,6 +328,11 @@ class Run:
             return ops.from_pyval(self, v, ty)
         if ty is TInt and v.ty is TBool:
             return Val(TInt, z3.If(v.t, 1, 0))
+        if isinstance(ty, TObj):
+            # injection of a concrete value into an opaque sort (only equality is observable)
+            if v.ty is TNone:
+                return Val(ty, z3.Const(f"none_{ty.name}", ty.sort()))
+            return Val(ty, ops.uf(f"inj_{v.ty.name}_{ty.name}", v.ty.sort(), ty.sort())(v.t))
         raise EngineError(f"cannot coerce {v.ty} to {ty}")
 
     # ---------------------------------------------------------------- statements
@@ -378,7 +402,14 @@ class Run:
                 raise EngineError(f"unsupported del target at line {st.lineno}")
 
     def st_Assign(self, st, fr):
-        v = self.ev(st.value, fr)
+        hint = None
+        if len(st.targets) == 1:
+            t0 = st.targets[0]
+            if isinstance(t0, ast.Name):
+                hint = fr.local_types.get(t0.id) or self.x.local_type(fr.finfo, t0.id)
+            elif isinstance(t0, ast.Attribute):
+                hint = self.attr_type_hint(t0, fr)
+        v = self.ev_typed(st.value, fr, hint)
         for t in st.targets:
             self.assign(t, v, fr)
 
@@ -389,8 +420,20 @@ class Run:
             ty = self.x.type_from_annotation(st.annotation, fr, soft=True)
             if ty is not None and st.target.id not in fr.local_types:
                 fr.local_types[st.target.id] = ty
-        v = self.ev_typed(st.value, fr, fr.local_types.get(getattr(st.target, "id", None)))
+        hint = fr.local_types.get(getattr(st.target, "id", None))
+        if isinstance(st.target, ast.Attribute):
+            hint = self.attr_type_hint(st.target, fr)
+        v = self.ev_typed(st.value, fr, hint)
         self.assign(st.target, v, fr)
+
+    def attr_type_hint(self, target, fr):
+        try:
+            obj = self.ev(target.value, fr)
+        except EngineError:
+            return None
+        if isinstance(obj, Val) and isinstance(obj.ty, TRef) and self.x.has_field(obj.ty.cls, target.attr):
+            return self.x.field_type(obj.ty.cls, target.attr)
+        return None
 
     def ev_typed(self, node, fr, ty):
         """Evaluate with a type hint for empty displays ([] / {} / set())."""
@@ -924,3 +967,19 @@ class SpecCtx:
         e = dict(self.extra)
         e.update(extra)
         return self.run.spec_val(expr, self.fr, e)
+
+    @property
+    def ghost(self):
+        return self.run.ghost
+
+    @property
+    def old_ghost(self):
+        return self.run.old["ghost"]
+
+    def define_array(self, dom, rng, fn, name="def"):
+        """Definitional extension: a fresh array A with  forall i. A[i] == fn(i)  (always satisfiable)."""
+        A = z3.FreshConst(z3.ArraySort(dom, rng), name)
+        i = z3.FreshConst(dom, "i")
+        ax = z3.ForAll([i], z3.Select(A, i) == fn(i))
+        self.run.pc.append(ax)
+        return A
